@@ -19,7 +19,7 @@ RULE = ('files of every length 0..N (and lengths around the 1 MiB streaming buff
         '(blanks, signs, underscores, Unicode digits, other units, extra dashes, empty) x If-Modified-Since before/equal/after the '
         'mtime in the three HTTP date formats, garbage and "; length=" suffixes x GET and HEAD, served through Ombott.__call__. '
         'Non-trivial = a Range or If-Modified-Since header is present; distinct = distinct (length, method, Range, IMS class).')
-REQUIRED = ['mtime_with_subsecond_part', 'ranges_crossing_a_buffer_boundary_before_eof', 'status_206', 'status_416', 'status_200', 'status_304', 'head_compared', 'slice_compared', 'grammar_satisfiable',
+REQUIRED = ['server_zone_not_utc', 'big_file_with_server_file_wrapper', 'mtime_with_subsecond_part', 'ranges_crossing_a_buffer_boundary_before_eof', 'status_206', 'status_416', 'status_200', 'status_304', 'head_compared', 'slice_compared', 'grammar_satisfiable',
             'grammar_unsatisfiable', 'near_miss', 'multi_range', 'suffix_range', 'open_range', 'clipped_end', 'ims_equal', 'ims_before', 'ims_after']
 EXHAUSTIVE = {'quick': False, 'thorough': False,
               'quick_note': 'complete for lengths 0..12 x all single ranges with bounds in -1..len+2',
@@ -194,7 +194,7 @@ def headers_equal_modulo_date(a, b):
 
 
 def do_case(ctx, site, n, header, expect, what, both_methods=True, ims=None, sample=False, fw=False):
-    wit = {'unit': {'kind': 'one', 'len': n, 'range': header, 'ims': ims, 'what': what}}
+    wit = {'unit': {'kind': 'one', 'len': n, 'range': header, 'ims': ims, 'what': what, 'fw': fw}}
     r, data = site.get(n, 'GET', header, ims, file_wrapper=fw)
     check_response(ctx, r, data, 'GET', header, expect, wit, what)
     ctx.case((n, 'GET', header, ims), nontrivial=header is not None or ims is not None)
@@ -296,18 +296,39 @@ def misc_unit(ctx, unit):
 def http_dates(t):
     import time
     tm = time.gmtime(t)
+    east = time.gmtime(t + 2 * 3600)
     return [email.utils.formatdate(t, usegmt=True),
             time.strftime('%A, %d-%b-%y %H:%M:%S GMT', tm),
-            time.strftime('%a %b %d %H:%M:%S %Y', tm).replace(' 0', '  ')]
+            time.strftime('%a %b %d %H:%M:%S %Y', tm).replace(' 0', '  '),     # asctime: no zone, UTC by definition
+            email.utils.formatdate(t, usegmt=False),                            # ... -0000
+            time.strftime('%a, %d %b %Y %H:%M:%S +0000', tm),
+            time.strftime('%a, %d %b %Y %H:%M:%S +0200', east)]                 # the same instant written with an offset
+
+
+ZONES = ['UTC', 'EST5', 'XXX-3', 'CET-1CEST,M3.5.0,M10.5.0/3', 'NST3:30NDT,M3.2.0,M11.1.0']     # POSIX TZ strings: the server's local zone
 
 
 def cond_unit(ctx, unit):
-    for frac in (0, 500_000_000, 1_000, 999_999_000):
-        ctx.count('mtime_with_subsecond_part' if frac else 'mtime_on_a_whole_second')
-        _cond_site(ctx, unit, Site(fracs=(frac,)))
+    import os
+    import time
+    old = os.environ.get('TZ')
+    try:
+        for zi, zone in enumerate(unit.get('zones', ZONES)):
+            os.environ['TZ'] = zone
+            time.tzset()
+            ctx.count('server_zone_utc' if zone == 'UTC' else 'server_zone_not_utc')
+            for frac in ((0, 500_000_000, 1_000, 999_999_000) if zi == 0 else ((0, 999_999_000)[zi % 2],)):
+                ctx.count('mtime_with_subsecond_part' if frac else 'mtime_on_a_whole_second')
+                _cond_site(ctx, unit, Site(fracs=(frac,)), zone)
+    finally:
+        if old is None:
+            os.environ.pop('TZ', None)
+        else:
+            os.environ['TZ'] = old
+        time.tzset()
 
 
-def _cond_site(ctx, unit, site):
+def _cond_site(ctx, unit, site, zone='UTC'):
     try:
         for n in unit['lens']:
             for delta, cname in [(-86400 * 400, 'ims_before'), (-1, 'ims_before'), (0, 'ims_equal'), (1, 'ims_after'), (86400 * 365, 'ims_after')]:
@@ -323,7 +344,7 @@ def _cond_site(ctx, unit, site):
                                 exp = ('full',)
                             else:
                                 exp = expectation(ref_first_range(('fl', 0, 0), n))
-                            do_case(ctx, site, n, header, exp, f'IMS {cname} format{fi}', ims=ims, sample=(n == unit['lens'][0] and fi == 0 and not suffix and header is None))
+                            do_case(ctx, site, n, header, exp, f'IMS {cname} format{fi} TZ={zone}', ims=ims, sample=(n == unit['lens'][0] and fi == 0 and not suffix and header is None))
             for junk in ['yesterday', '0', 'Thu, 99 Foo 2020 00:00:00 GMT', '', ';', 'Mon, 01 Jan 0000 00:00:00 GMT', '\x00', 'Sun, 13 Sep 2020 12:26:40']:
                 ctx.count('ims_garbage')
                 # an unparseable date is no condition at all; a parseable one without zone is decided by the parser (either way allowed)
@@ -347,6 +368,7 @@ def big_unit(ctx, unit):
         for n in unit['lens']:
             do_case(ctx, site, n, None, ('full',), 'big file, no range', both_methods=True)
             do_case(ctx, site, n, None, ('full',), 'big file, no range, server file_wrapper', both_methods=False, fw=True)
+            ctx.count('big_file_with_server_file_wrapper')
             pts = sorted({0, 1, 7, BUF - 10, BUF - 1, BUF, BUF + 1, BUF + 50, 2 * BUF - 1, 2 * BUF, 2 * BUF + 3, n - 1, n - 2, n // 2} & set(range(n)))
             specs = [('fl', a, b) for a in pts for b in pts if a <= b] + [('f', a) for a in pts] + [('s', s) for s in (1, 60, BUF, BUF + 1, n - 7, n, n + 5)]
             for spec in specs:
@@ -354,7 +376,9 @@ def big_unit(ctx, unit):
                 if isinstance(ref, tuple) and ref[1] < n and ref[0] // BUF != (ref[1] - 1) // BUF:
                     ctx.count('ranges_crossing_a_buffer_boundary_before_eof')
                 do_case(ctx, site, n, 'bytes=' + render_spec(spec), expectation(ref), 'big file', both_methods=False)
+                do_case(ctx, site, n, 'bytes=' + render_spec(spec), expectation(ref), 'big file, server file_wrapper', both_methods=False, fw=True)
                 ctx.count('big_file_ranges')
+                ctx.count('big_file_with_server_file_wrapper')
     finally:
         site.close()
 
@@ -384,10 +408,15 @@ def run_unit(ctx, unit):
     elif k == 'big':
         big_unit(ctx, unit)
     elif k == 'one':
+        if ' TZ=' in unit['what']:
+            import os
+            import time
+            os.environ['TZ'] = unit['what'].split(' TZ=', 1)[1]
+            time.tzset()
         site = Site()
         try:
             for method in ('GET', 'HEAD'):
-                r, data = site.get(unit['len'], method, unit['range'], unit['ims'])
+                r, data = site.get(unit['len'], method, unit['range'], unit['ims'], file_wrapper=bool(unit.get('fw')) and method == 'GET')
                 print(f'  {method} len={unit["len"]} Range={unit["range"]!r} IMS={unit["ims"]!r} -> {r.status} '
                       f'Content-Range={r.header("Content-Range")} Content-Length={r.header("Content-Length")} body={len(r.body)} bytes')
                 # re-derive the expectation for grammar-conforming single ranges
